@@ -428,7 +428,7 @@ def chain(n): return "local x = " + "".join("a:b(" for _ in range(n)) + "a" + ""
 # D37 (open, known finding): every level of a method chain nested in the arguments of a method chain is formatted several times over
 # (trial formats of format_function_call and of the argument heuristics): 150 bytes take minutes
 D37_FINDING = [dict(w(chain(16), oracle="parse"), time_limit=10)]
-C07_BOUNDED = [x for x in COLLAPSE_WITNESSES if x["oracle"] == "tree"] + COLLAPSE_LUAU_WITNESSES + TIME_WITNESSES + [dict(w(chain(7), oracle="parse"), time_limit=20)] + D37_FINDING    # the replay tool reports a formatter panic as a violation
+C07_BOUNDED = [w('local f = function() goto x end\n::x::\nlocal function g()\n  goto x\nend\n', oracle="tree", syntax="lua52", collapse_simple_statement=c) for c in ("Always", "FunctionOnly")] + [x for x in COLLAPSE_WITNESSES if x["oracle"] == "tree"] + COLLAPSE_LUAU_WITNESSES + TIME_WITNESSES + [dict(w(chain(7), oracle="parse"), time_limit=20)] + D37_FINDING    # the replay tool reports a formatter panic as a violation
 
 # corpus sweep (bounded stand-in): /repo/tests/inputs*/ under configurations and widths the snapshot tests do not use
 CORPUS_CONFIGS_QUICK = [dict(), dict(collapse_simple_statement="Always", call_parentheses="None"),
@@ -453,6 +453,7 @@ NOT_APPLICABLE = {
 }
 
 # witnesses for unlabelled failures inside a function (failed proof step / precondition): by function name
-FN_WITNESSES = {"update_trivia": FEATURE_SET_WITNESSES, "load": [cli("option_carriers")], "load_overrides": [cli("config_search"), cli("option_carriers")], "format_file": [cli("write_only_formatted_text"), cli("check_never_writes")],
+GOTO_COLLAPSE_WITNESSES = [w('local f = function() goto x end\n::x::\nlocal function g()\n  goto x\nend\n', oracle="tree", syntax="lua52", collapse_simple_statement=c) for c in ("Always", "FunctionOnly")]
+FN_WITNESSES = {"update_trivia": FEATURE_SET_WITNESSES, "block_contains_nested_function": GOTO_COLLAPSE_WITNESSES + COLLAPSE_LUAU_WITNESSES, "load": [cli("option_carriers")], "load_overrides": [cli("config_search"), cli("option_carriers")], "format_file": [cli("write_only_formatted_text"), cli("check_never_writes")],
                 "format_string": [cli("stdin_stdout_only")], "create_diff": [cli("check_never_writes")], "output_diff_json": [cli("json_diff_reconstructs")],
                 "load_configuration": [cli("config_search")], "find_config_file": [cli("config_search")]}
